@@ -220,8 +220,17 @@ func runE2E(c caseT) obsT {
 		o.Truth = []int{999}
 		return o
 	}
-	col := resource.NewCollection()
-	ro := []resource.ReadOption{resource.WithBackpressure(false), resource.WithUpdatesOnly(true)}
+	// every third run the collection already holds an item (under an id the behaviours never touch) and the
+	// subscription takes its seed: the consumer is idle while the seed is still waiting for it, and the writes go
+	// through all the same
+	seeded := c.Mode == "e2e" && c.N%3 == 0
+	var col *resource.Collection
+	ro := []resource.ReadOption{resource.WithBackpressure(false), resource.WithUpdatesOnly(!seeded)}
+	if seeded {
+		col = resource.NewCollection(resource.WithInitialRecord("seedseed", msg(500)))
+	} else {
+		col = resource.NewCollection()
+	}
 	if c.Mode == "e2e-inc" {
 		ro = append(ro, resource.WithInclude(odd))
 	}
@@ -235,6 +244,17 @@ func runE2E(c caseT) obsT {
 		case e, ok := <-ch:
 			if !ok {
 				return chg{}, false
+			}
+			if e.SeedValue {
+				// (the seed of the item the behaviour does not know about: take the next one)
+				select {
+				case e, ok = <-ch:
+					if !ok {
+						return chg{}, false
+					}
+				case <-time.After(d):
+					return chg{}, false
+				}
 			}
 			return absColl(e), true
 		case <-time.After(d):
